@@ -1860,22 +1860,16 @@ namespace chaiscript {
             throw exception::eval_error("Incomplete 'if' block", File_Position(m_position.line, m_position.col), *m_filename);
           }
 
-          bool has_matches = true;
-          while (has_matches) {
-            while (Eol()) {
-            }
-            has_matches = false;
-            if (Keyword("else")) {
-              if (If()) {
-                has_matches = true;
-              } else {
-                while (Eol()) {
-                }
+          // at most one else: an `else if` is a nested If, which takes the else that follows it
+          while (Eol()) {
+          }
+          if (Keyword("else")) {
+            if (!If()) {
+              while (Eol()) {
+              }
 
-                if (!Block()) {
-                  throw exception::eval_error("Incomplete 'else' block", File_Position(m_position.line, m_position.col), *m_filename);
-                }
-                has_matches = true;
+              if (!Block()) {
+                throw exception::eval_error("Incomplete 'else' block", File_Position(m_position.line, m_position.col), *m_filename);
               }
             }
           }
